@@ -7,7 +7,7 @@ separately: whatever sympy generate() or the file write raises, it returns False
 escapes), and it returns True otherwise.
 Symbolic: verbosity, existence of every path, validity of the output directory, number of files
 and of files with parse errors, outcome (success/failure) of every model.  Enumerated (bounded,
-stated): list lengths (1-2 paths, 0-2 models, 0-2 options) and option strings by syntactic class.
+stated): list lengths (1-2 paths, 0-2 models, 0-2 options) and option strings by syntactic class (also one NAME given twice).
 """
 import z3
 
@@ -144,7 +144,9 @@ class ModuleStub(Ext):
 
 
 OPTION_CLASSES = ["name=true", "name=False", "name=text", "novalue", "a=b=c"]
-OPTION_SETS = [[]] + [[c] for c in OPTION_CLASSES] + [["name=true", "novalue"], ["a=b=c", "novalue"], ["name=text", "other=False"]]
+OPTION_SETS = [[]] + [[c] for c in OPTION_CLASSES] + [["name=true", "novalue"], ["a=b=c", "novalue"], ["name=text", "other=False"],
+                                                    # the same NAME given twice: every argument is counted on its own, whatever follows it
+                                                    ["name", "name=true"], ["name=true", "name"], ["a=b=c", "a=x"], ["name", "name"], ["name=text", "name=False"]]
 
 
 # enumerated list shapes: every (paths, models) length pair with no options, every option set with
@@ -204,7 +206,7 @@ def namespace(eng, G):
     ns = VObj(VClass("Namespace"), {"verbose": verbose, "target": target, "model": models, "option": options,
                                     "PATH": VList(paths), "outdir": outdir})
     usage = z3.If(outdir.is_dir_, 0, 1) + sum(z3.If(p.exists, 0, 1) for p in paths) + \
-        sum(1 for c in opt_classes if c in ("novalue", "a=b=c"))
+        sum(1 for c in opt_classes if c.count("=") != 1)       # one usage error per -O argument that is not NAME=VALUE
     return ns, models, usage, target
 
 
